@@ -429,17 +429,34 @@ fn runtype_union_or_intersection(
 }
 
 fn extract_union(it: &Runtype, named_schemas: &[NamedSchema]) -> Vec<Runtype> {
+    extract_union_visiting(it, named_schemas, &mut vec![])
+}
+
+// `visiting`: the named unions being flattened; a union that (directly or through other names) lists
+// itself as a member - `type A = A | string` - keeps that member as a reference instead of being
+// unfolded forever
+fn extract_union_visiting(
+    it: &Runtype,
+    named_schemas: &[NamedSchema],
+    visiting: &mut Vec<RuntypeUUID>,
+) -> Vec<Runtype> {
     match &it.kind {
         RuntypeKind::AnyOf(vs) => vs
             .iter()
-            .flat_map(|it| extract_union(it, named_schemas))
+            .flat_map(|it| extract_union_visiting(it, named_schemas, visiting))
             .collect(),
         RuntypeKind::Ref(r) => {
+            if visiting.contains(r) {
+                return vec![it.clone()];
+            }
             let v = named_schemas
                 .iter()
                 .find(|it| it.name == *r)
                 .expect("everything should be resolved by now");
-            extract_union(&v.schema, named_schemas)
+            visiting.push(r.clone());
+            let res = extract_union_visiting(&v.schema, named_schemas, visiting);
+            visiting.pop();
+            res
         }
         RuntypeKind::Never => vec![],
         _ => vec![it.clone()],
